@@ -16,7 +16,8 @@ MODEL_FILES = ['theories/Model/Dag.v']
 GEN_GROUPS = []
 RULE = ('programs = sequences of add_arrow/add_arrows/add_from_networkx on DirectedAcyclicGraph("X","Y"). (1) every one of the '
         '3^9 = 19683 orientation vectors of the 9 free node pairs of a 5-node graph with X->Y (8816 DAGs; the 10867 cyclic ones '
-        'must be rejected and leave the graph unchanged) as one add_arrows call in lexicographic arrow order [all, both tiers], '
+        'must be rejected and leave the graph unchanged) as one add_arrows call in lexicographic arrow order [all 8816 DAGs in both tiers; '
+        'cyclic ones: 3000 sampled in quick, all in thorough; acyclicity decided by the Coq model], '
         'and in reversed order / shuffled one-by-one add_arrow calls / add_from_networkx with a random node permutation '
         '[quick: 1000 sampled each + every graph on which the Coq model of the shipped moralisation loop loses a set in the '
         'lexicographic pass; thorough: all]; (2) random programs on 2..8 nodes mixing the three calls, with deliberately '
@@ -297,9 +298,20 @@ def prog_for(order, vec, rng):
 
 def exhaustive_part(ctx, fails):
     vecs = list(itertools.product(range(3), repeat=9))
-    cases = [('5node-lex', prog_for('lex', v, ctx.rng)) for v in vecs]
+    lexvecs = vecs
+    if ctx.quick:
+        # quick tier: every acyclic arrow set, and a sample of 3000 of the cyclic ones (all of them in the thorough tier);
+        # which vectors are acyclic is decided by the Coq model (one bit per vector, same lexicographic order)
+        res, errs = coq_eval(ctx, 'c18dagbits', ['Zepid.Model.Dag'], ['admit_mask (fun os => is_dag (graph5 os)) all_orient5'], shard=1)
+        if res[0] is not None:
+            bits = res[0]
+            acyc = [v for i, v in enumerate(vecs) if (bits >> i) & 1]
+            cyc = [v for i, v in enumerate(vecs) if not (bits >> i) & 1]
+            ctx.extra['five_node_arrow_sets'] = {'acyclic (Coq)': len(acyc), 'cyclic (Coq)': len(cyc), 'cyclic sampled in quick tier': min(3000, len(cyc))}
+            lexvecs = acyc + ctx.rng.sample(cyc, min(3000, len(cyc)))
+    cases = [('5node-lex', prog_for('lex', v, ctx.rng)) for v in lexvecs]
     flags = check_cases(ctx, cases, fails, 'c18lex', shard=250)
-    flagged = [v for v, f in zip(vecs, flags) if f]
+    flagged = [v for v, f in zip(lexvecs, flags) if f]
     ctx.extra['five_node_graphs_on_which_model_of_shipped_loop_loses_sets_lex_order'] = len(flagged)
     for order in ('rev', 'shuf', 'nx'):
         if ctx.quick:
